@@ -92,6 +92,8 @@ def feat_of(case, entry, kind):
     t = case["text"]
     f["has_backslash"] = "\\" in t
     f["quote_then_op"] = bool(re.search(r"[\"'][;&|]", t))
+    words = t.split()
+    f["last_word_escaped_head"] = bool(words) and (words[-1].startswith("\\$") or words[-1].startswith("\\|"))
     return f
 
 
